@@ -3,7 +3,7 @@ C20 concrete models `B` (core Lean only; the driver imports this file). Transcri
 
 * `retriever/archive_tar.go`   `sanitizeArchivePath` (with Go's `strings.TrimSpace`, `path.Clean`,
                                 `hasWindowsVolumeName`), the extraction loop of `unpackTarWithOptions` /
-                                `unpackTarFileTracked`, plain `UnpackTar`, `UnpackEncryptedCollectionArchive`;
+                                `unpackTarFileTracked`, plain `UnpackTar` (staged since the F11 repair), `UnpackEncryptedCollectionArchive`;
 * `retriever/archive_envelope.go` the frame protocol of `encryptedArchiveWriter` / `encryptedArchiveReader`
                                 over an abstract AEAD, and the staging protocol of `Unpack`
                                 (`createUnpackStagingDirectory` … `promoteUnpackStagingDirectory`);
@@ -205,8 +205,10 @@ def URes.final (r : URes) (d0 : Dirs) : Dirs := r.trace.getLast?.getD d0
 /-- `prepareOutputDirectory` / `preflightUnpackOutputDirectory`: refuses a non-empty destination unless forced -/
 def refusesDest (force : Bool) (d : Dirs) : Bool := !force && !(files d.out).isEmpty
 
-/-- plain `UnpackTar(reader, outputDir, force)`: extraction straight into the destination (F11). -/
-def unpackPlain (refuse : Str → Bool) (force : Bool) (outPath : Str) (items : List Item) (d0 : Dirs) : URes :=
+/-- plain `UnpackTar(reader, outputDir, force)` BEFORE the F11 repair: extraction straight into the
+destination. Kept as the subject of the refutation `unpack_plain_partial_output_old`; the live definition
+is `unpackPlain` below. -/
+def unpackPlainOld (refuse : Str → Bool) (force : Bool) (outPath : Str) (items : List Item) (d0 : Dirs) : URes :=
   if refusesDest force d0 = true then ⟨[d0], some .notEmpty⟩
   else
     let r := extractLoop refuse outPath items ⟨[], []⟩
@@ -247,8 +249,11 @@ def unpackStaged (refuse : Str → Bool) (validate : FS → Bool) (tailOk : Bool
        none⟩
     else ⟨[d0, d1, d2, { out := some r.st.fs, staging := none, backup := none }], none⟩
 
-/-- F11 repaired: the plain path run through the same staging protocol (no collection to validate, no frames). -/
-def unpackPlainFixed (refuse : Str → Bool) (force : Bool) (stagePath : Str) (items : List Item) (d0 : Dirs) : URes :=
+/-- plain `UnpackTar(reader, outputDir, force)` (live, after the F11 repair): `UnpackTarWithOptions` creates a
+staging directory next to the destination (`createUnpackStagingDirectory`), extracts into it, removes it on
+any error (deferred `os.RemoveAll`) and promotes it by rename (`promoteUnpackStagingDirectory`) — the staging
+protocol of `Unpack` with no collection to validate and no frame stream to finish. -/
+def unpackPlain (refuse : Str → Bool) (force : Bool) (stagePath : Str) (items : List Item) (d0 : Dirs) : URes :=
   unpackStaged refuse (fun _ => true) true force stagePath items d0
 
 /-! ## Encrypted archive frames over an abstract AEAD -/
